@@ -215,6 +215,12 @@ impl StateMachine<'_> {
                     &grep_line.path,
                     grep_line.line_number,
                 )
+                .filter(|sections| {
+                    style_sections_spell(
+                        sections,
+                        &tabs::expand(&grep_line.code, &self.config.tab_cfg),
+                    )
+                })
                 .unwrap_or(StyleSectionSpecifier::Style(
                     self.config.grep_match_line_style,
                 ))
@@ -356,6 +362,12 @@ impl StateMachine<'_> {
                     &grep_line.path,
                     grep_line.line_number,
                 )
+                .filter(|sections| {
+                    style_sections_spell(
+                        sections,
+                        &tabs::expand(&grep_line.code, &self.config.tab_cfg),
+                    )
+                })
                 .unwrap_or(StyleSectionSpecifier::Style(
                     self.config.grep_match_line_style,
                 ))
@@ -402,6 +414,19 @@ fn make_style_sections<'a>(
         sections.push((non_match_style, &line[curr..]))
     }
     StyleSectionSpecifier::StyleSections(sections)
+}
+
+// The raw line is cut after a prefix whose length is computed from the parsed path and
+// line number; if that is not where the code starts (e.g. a zero-padded line number) the
+// sections do not spell the code and must not be used.
+fn style_sections_spell(sections: &StyleSectionSpecifier, text: &str) -> bool {
+    match sections {
+        StyleSectionSpecifier::StyleSections(sections) => sections
+            .iter()
+            .flat_map(|(_, s)| s.bytes())
+            .eq(text.bytes()),
+        StyleSectionSpecifier::Style(_) => true,
+    }
 }
 
 // Return style sections describing colors received from git.
